@@ -1,12 +1,11 @@
-(* Facts about whipe_comments (build.rs): which offsets survive the comment blanking. *)
+(* Facts about whipe_comments (build.rs, as repaired in commit 85b4372): comments are blanked byte for
+   byte and terminators are kept, so every offset of the wiped text is the same offset of the
+   original text, for every input. *)
 
 From Coq Require Import List NArith Bool Lia PeanoNat Arith.
-From SrcDisp Require Import Model FactsLines.
+From SrcDisp Require Import Model FactsLines Facts.
 Import ListNotations.
 Open Scope N_scope.
-
-(* The text without one final "\n" *)
-Definition chomp (s : list N) : list N := unwrap_or (strip_suffix LF s) s.
 
 (* b is a, or a blank that replaces a byte other than LF *)
 Definition blank_rel (a b : N) : Prop := b = a \/ (b = SP /\ a <> LF).
@@ -38,84 +37,37 @@ Proof.
     rewrite IH by (intros Hin; apply H; right; exact Hin). reflexivity.
 Qed.
 
-(* ------------------------------------------------------------------------------------------ *)
-(* str_lines and join_lf for CR-free text *)
-
-Lemma strip_suffix_cons : forall b x y t,
-  strip_suffix b (x :: y :: t) = option_map (cons x) (strip_suffix b (y :: t)).
-Proof. reflexivity. Qed.
-
-Lemma str_line_cons : forall c seg,
-  seg <> [] -> c <> CR -> str_line (c :: seg) = c :: str_line seg.
+Lemma split_no_lf : forall l, ~ In LF l -> l <> [] -> split_inclusive l = [l].
 Proof.
-  intros c seg Hne Hc. destruct seg as [|y t]; [exfalso; apply Hne; reflexivity|].
-  unfold str_line. rewrite strip_suffix_cons.
-  destruct (strip_suffix LF (y :: t)) as [l|] eqn:E; cbn [option_map]; [|reflexivity].
-  destruct l as [|z l'].
-  - cbn [strip_suffix unwrap_or]. apply N.eqb_neq in Hc. rewrite Hc. reflexivity.
-  - rewrite strip_suffix_cons.
-    destruct (strip_suffix CR (z :: l')); reflexivity.
-Qed.
-
-Lemma chomp_cons : forall c t, t <> [] -> chomp (c :: t) = c :: chomp t.
-Proof.
-  intros c t Hne. destruct t as [|y t']; [exfalso; apply Hne; reflexivity|].
-  unfold chomp. rewrite strip_suffix_cons.
-  destruct (strip_suffix LF (y :: t')); reflexivity.
-Qed.
-
-Lemma join_lf_cons_cons : forall c l ls, join_lf ((c :: l) :: ls) = c :: join_lf (l :: ls).
-Proof. intros c l ls. cbn [join_lf]. destruct ls; reflexivity. Qed.
-
-Lemma join_str_lines_lf : forall s, ~ In CR s -> join_lf (str_lines s) = chomp s.
-Proof.
-  induction s as [|c t IH]; intros H.
-  - reflexivity.
-  - assert (Ht : ~ In CR t) by (intros Hin; apply H; right; exact Hin).
-    assert (Hc : c <> CR) by (intros E; apply H; left; exact E).
-    specialize (IH Ht). unfold str_lines in *. cbn [split_inclusive].
-    destruct (c =? LF) eqn:E.
-    + apply N.eqb_eq in E. subst c. cbn [map].
-      change (str_line [LF]) with (@nil N).
-      destruct t as [|y t'].
-      * reflexivity.
-      * rewrite chomp_cons by discriminate. rewrite <- IH.
-        destruct (split_inclusive (y :: t')) as [|seg rest] eqn:S.
-        -- apply split_nil_iff in S. discriminate S.
-        -- reflexivity.
-    + destruct (split_inclusive t) as [|seg rest] eqn:S.
-      * apply split_nil_iff in S. subst t. cbn [map].
-        unfold str_line, chomp. cbn [strip_suffix]. rewrite E. reflexivity.
-      * assert (Hseg : seg <> []) by exact (split_head_nonempty _ _ _ S).
-        assert (Htne : t <> []) by (intros E0; subst t; discriminate S).
-        cbn [map] in *. rewrite str_line_cons by assumption.
-        rewrite join_lf_cons_cons, IH. rewrite chomp_cons by exact Htne. reflexivity.
-Qed.
-
-Lemma segs_ok_in : forall segs seg,
-  segs_ok segs -> In seg segs -> exists body, ~ In LF body /\ (seg = body ++ [LF] \/ seg = body).
-Proof.
-  induction segs as [|x r IH]; intros seg Hok Hin; [destruct Hin|].
-  cbn [segs_ok] in Hok. destruct Hok as [[body [Hb Hs]] Hr]. destruct Hin as [Hin|Hin].
-  - subst x. exists body. split; [exact Hb|]. destruct Hs as [Hs|[Hs _]]; [left|right]; exact Hs.
-  - exact (IH _ Hr Hin).
-Qed.
-
-Lemma str_lines_no_lf : forall s l, In l (str_lines s) -> ~ In LF l.
-Proof.
-  intros s l H. unfold str_lines in H. apply in_map_iff in H. destruct H as [seg [Hl Hin]].
-  pose proof (split_segs_ok s) as Hok.
-  pose proof (segs_ok_in _ _ Hok Hin) as Hseg.
-  destruct Hseg as [body [Hb [Hs|Hs]]]; subst seg l; unfold str_line.
-  - rewrite strip_suffix_app.
-    destruct (strip_suffix CR body) as [c|] eqn:E; cbn [unwrap_or]; [|exact Hb].
-    apply strip_suffix_some in E. subst body. intros Hc. apply Hb. apply in_or_app. left. exact Hc.
-  - destruct (strip_suffix LF body) as [r|] eqn:E; [|exact Hb].
-    apply strip_suffix_some in E. exfalso. exact (not_in_app_last _ _ _ Hb E).
+  induction l as [|c t IH]; intros H Hne; [exfalso; apply Hne; reflexivity|].
+  cbn [split_inclusive].
+  assert (Hc : c <> LF) by (intros E; apply H; left; exact E).
+  apply N.eqb_neq in Hc. rewrite Hc.
+  destruct t as [|y t']; [reflexivity|].
+  rewrite IH; [reflexivity| |discriminate].
+  intros Hin. apply H. right. exact Hin.
 Qed.
 
 (* ------------------------------------------------------------------------------------------ *)
 (* whipe_line blanks bytes one for one *)
+
+Lemma Forall2_nth_r : forall A B (R : A -> B -> Prop) a b o y,
+  Forall2 R a b -> nth_error b o = Some y -> exists x, nth_error a o = Some x /\ R x y.
+Proof.
+  intros A B R a b o y H. revert o. induction H as [|x0 y0 a b Hxy Hab IH]; intros o Hn.
+  - destruct o; discriminate Hn.
+  - destruct o as [|o'].
+    + cbn [nth_error] in *. inversion Hn. subst. exists x0. split; [reflexivity|exact Hxy].
+    + cbn [nth_error] in *. exact (IH _ Hn).
+Qed.
+
+Lemma Forall2_firstn : forall A B (R : A -> B -> Prop) n a b,
+  Forall2 R a b -> Forall2 R (firstn n a) (firstn n b).
+Proof.
+  intros A B R n. induction n as [|n IH]; intros a b H; [constructor|].
+  destruct H as [|x y a b Hxy Hab]; [constructor|].
+  cbn [firstn]. constructor; [exact Hxy|exact (IH _ _ Hab)].
+Qed.
 
 Lemma Forall2_same_length : forall A B (R : A -> B -> Prop) l l', Forall2 R l l' -> length l = length l'.
 Proof. intros A B R l l' H. induction H as [|x y l l' _ _ IH]; [reflexivity|]. cbn [length]. rewrite IH. reflexivity. Qed.
@@ -140,37 +92,183 @@ Proof.
   intros Hin. apply H. rewrite <- (firstn_skipn i l). apply in_or_app. right. exact Hin.
 Qed.
 
-Lemma join_lf_Forall2 : forall ls ls',
-  Forall2 (Forall2 blank_rel) ls ls' -> Forall2 blank_rel (join_lf ls) (join_lf ls').
-Proof.
-  intros ls ls' H. induction H as [|l l' r r' Hl Hr IH]; [constructor|].
-  cbn [join_lf]. destruct Hr as [|l2 l2' r2 r2' Hl2 Hr2].
-  - exact Hl.
-  - apply Forall2_app; [exact Hl|]. constructor; [left; reflexivity|exact IH].
-Qed.
+Lemma whipe_line_length : forall l, ~ In LF l -> length (whipe_line l) = length l.
+Proof. intros l H. symmetry. exact (Forall2_same_length (whipe_line_blank l H)). Qed.
 
-(* For text without CR: the wiped text is the original minus one final "\n", with some bytes other
-   than LF replaced by blanks.  In particular the two have the same length, agree on where the LFs
-   are, and every offset denotes the same position of the same line in both. *)
-Theorem whipe_preserves_offsets_lf : forall src,
-  ~ In CR src -> Forall2 blank_rel (chomp src) (whipe_comments src).
+Lemma Forall2_blank_last_cr : forall a b' , Forall2 blank_rel a (b' ++ [CR]) -> exists a', a = a' ++ [CR].
 Proof.
-  intros src H. rewrite <- (join_str_lines_lf src H). unfold whipe_comments.
-  apply join_lf_Forall2.
-  assert (Hall : forall l, In l (str_lines src) -> ~ In LF l) by (apply str_lines_no_lf).
-  revert Hall. generalize (str_lines src). induction l as [|x r IH]; intros Hall; [constructor|].
-  cbn [map]. constructor.
-  - apply whipe_line_blank. apply Hall. left. reflexivity.
-  - apply IH. intros l Hl. apply Hall. right. exact Hl.
-Qed.
-
-Corollary whipe_length_lf : forall src, ~ In CR src -> length (whipe_comments src) = length (chomp src).
-Proof.
-  intros src H. symmetry. exact (Forall2_same_length (whipe_preserves_offsets_lf src H)).
+  intros a b' H. apply Forall2_app_inv_r in H. destruct H as [a1 [a2 [H1 [H2 E]]]].
+  inversion H2 as [|x y l l' Hxy Hl]. subst. inversion Hl. subst.
+  exists a1. destruct Hxy as [E|[E _]]; [subst x; reflexivity|discriminate E].
 Qed.
 
 (* ------------------------------------------------------------------------------------------ *)
-(* Blanking does not move the line table *)
+(* whipe_comments, piece by piece *)
+
+Definition wpiece (p : list N * list N) : list N * list N := (whipe_line (fst p), snd p).
+
+Lemma whipe_as_pieces : forall src,
+  whipe_comments src = concat (map piece_bytes (map wpiece (pieces src))).
+Proof.
+  intros src. unfold whipe_comments, pieces. rewrite !map_map. reflexivity.
+Qed.
+
+Lemma pieces_blank : forall ps,
+  pieces_ok ps ->
+  Forall2 blank_rel (concat (map piece_bytes ps)) (concat (map piece_bytes (map wpiece ps))).
+Proof.
+  induction ps as [|p r IH]; intros Hok; [constructor|].
+  cbn [pieces_ok] in Hok. destruct Hok as [[Hp1 _] [_ Hr]].
+  cbn [map concat]. apply Forall2_app; [|exact (IH Hr)].
+  unfold piece_bytes, wpiece. cbn [fst snd].
+  apply Forall2_app; [apply whipe_line_blank; exact Hp1|apply Forall2_blank_refl].
+Qed.
+
+(* The wiped text is the original with some bytes other than LF replaced by blanks: same length,
+   same offsets, for every input. *)
+Theorem whipe_preserves_offsets : forall src, Forall2 blank_rel src (whipe_comments src).
+Proof.
+  intros src. destruct (line_locations_pieces src) as [Hc [_ Hok]].
+  rewrite whipe_as_pieces. rewrite <- Hc at 1. apply pieces_blank. exact Hok.
+Qed.
+
+Corollary whipe_length : forall src, length (whipe_comments src) = length src.
+Proof. intros src. symmetry. exact (Forall2_same_length (whipe_preserves_offsets src)). Qed.
+
+(* "A blank replacing a byte that is neither LF nor CR" is false: a lone CR inside a comment is
+   content (it does not end a line) and is blanked like every other comment byte. *)
+Definition blank_rel_strict (a b : N) : Prop := b = a \/ (b = SP /\ a <> LF /\ a <> CR).
+
+Lemma whipe_blanks_only_non_cr_refuted : exists src, ~ Forall2 blank_rel_strict src (whipe_comments src).
+Proof.
+  exists [47; 47; 13; 120]. vm_compute. intros H.
+  inversion H as [|x1 y1 l1 l1' _ H1]. subst. inversion H1 as [|x2 y2 l2 l2' _ H2]. subst.
+  inversion H2 as [|x3 y3 l3 l3' H3 _]. subst.
+  destruct H3 as [E|[_ [_ E]]]; [discriminate E|apply E; reflexivity].
+Qed.
+
+(* ------------------------------------------------------------------------------------------ *)
+(* A well-formed decomposition determines the line table *)
+
+Lemma line_content_piece : forall c t, piece_ok (c, t) -> line_content (c ++ t) = c.
+Proof.
+  intros c t [H1 [H2 [_ H4]]]. cbn [fst snd] in *. unfold line_content.
+  destruct H2 as [Ht|[Ht|[Ht|Ht]]]; subst t.
+  - rewrite app_nil_r.
+    assert (E1 : strip_suffix LF c = None).
+    { destruct (strip_suffix LF c) as [r|] eqn:E; [|reflexivity].
+      apply strip_suffix_some in E. exfalso. exact (not_in_app_last _ _ _ H1 E). }
+    rewrite E1. cbn [unwrap_or].
+    destruct (strip_suffix CR c) as [r|] eqn:E; [|reflexivity].
+    apply strip_suffix_some in E. exfalso. exact (H4 (or_introl eq_refl) r E).
+  - rewrite strip_suffix_app. cbn [unwrap_or].
+    destruct (strip_suffix CR c) as [r|] eqn:E; [|reflexivity].
+    apply strip_suffix_some in E. exfalso. exact (H4 (or_intror eq_refl) r E).
+  - assert (E1 : strip_suffix LF (c ++ [CR]) = None).
+    { destruct (strip_suffix LF (c ++ [CR])) as [r|] eqn:E; [|reflexivity].
+      apply strip_suffix_some in E. exfalso.
+      assert (Hin : In LF (c ++ [CR])) by (rewrite E; apply in_or_app; right; left; reflexivity).
+      apply in_app_or in Hin. destruct Hin as [Hin|[Hin|[]]]; [exact (H1 Hin)|discriminate Hin]. }
+    rewrite E1. cbn [unwrap_or]. rewrite strip_suffix_app. reflexivity.
+  - replace (c ++ [CR; LF]) with ((c ++ [CR]) ++ [LF]) by (rewrite <- app_assoc; reflexivity).
+    rewrite strip_suffix_app. cbn [unwrap_or]. rewrite strip_suffix_app. reflexivity.
+Qed.
+
+Lemma lf_terminator_split : forall t,
+  is_lf_terminator t -> exists t', t = t' ++ [LF] /\ (t' = [] \/ t' = [CR]).
+Proof.
+  intros t [H|H]; subst t; [exists []|exists [CR]]; split; try reflexivity; [left|right]; reflexivity.
+Qed.
+
+Lemma line_locs_of_pieces : forall ps pos,
+  pieces_ok ps ->
+  line_locs_from pos (split_inclusive (concat (map piece_bytes ps))) = locs_of pos ps.
+Proof.
+  induction ps as [|p r IH]; intros pos Hok; [reflexivity|].
+  cbn [pieces_ok] in Hok. destruct Hok as [Hp [Hterm Hr]].
+  destruct p as [c t]. pose proof (line_content_piece c t Hp) as Hlc.
+  destruct Hp as [H1 [H2 [H3 H4]]]. cbn [fst snd] in *.
+  cbn [map concat locs_of]. unfold piece_bytes at 1. cbn [fst snd].
+  assert (Hcases : is_lf_terminator t \/ (r = [] /\ ~ In LF (c ++ t))).
+  { destruct H2 as [Ht|[Ht|[Ht|Ht]]]; subst t.
+    - right. split.
+      + destruct r as [|q r']; [reflexivity|].
+        assert (Hne : q :: r' <> []) by discriminate. destruct (Hterm Hne) as [H0|H0]; discriminate H0.
+      + rewrite app_nil_r. exact H1.
+    - left. left. reflexivity.
+    - right. split.
+      + destruct r as [|q r']; [reflexivity|].
+        assert (Hne : q :: r' <> []) by discriminate. destruct (Hterm Hne) as [H0|H0]; discriminate H0.
+      + intros Hin. apply in_app_or in Hin. destruct Hin as [Hin|[Hin|[]]]; [exact (H1 Hin)|discriminate Hin].
+    - left. right. reflexivity. }
+  destruct Hcases as [Hlf|[Hr0 Hnolf]].
+  - destruct (lf_terminator_split _ Hlf) as [t' [Ht Ht']].
+    assert (Hnolf : ~ In LF (c ++ t')).
+    { intros Hin. apply in_app_or in Hin. destruct Hin as [Hin|Hin]; [exact (H1 Hin)|].
+      destruct Ht' as [E|E]; subst t'; [destruct Hin|].
+      destruct Hin as [Hin|[]]. discriminate Hin. }
+    replace ((c ++ t) ++ concat (map piece_bytes r)) with ((c ++ t') ++ LF :: concat (map piece_bytes r)).
+    2:{ rewrite Ht. rewrite <- !app_assoc. reflexivity. }
+    rewrite split_app_line by exact Hnolf.
+    cbn [line_locs_from].
+    replace ((c ++ t') ++ [LF]) with (c ++ t) by (rewrite Ht, app_assoc; reflexivity).
+    rewrite Hlc. unfold piece_bytes at 2. cbn [fst snd].
+    rewrite IH by exact Hr. reflexivity.
+  - subst r. cbn [map concat locs_of]. rewrite app_nil_r.
+    rewrite split_no_lf by assumption.
+    cbn [line_locs_from]. rewrite Hlc. reflexivity.
+Qed.
+
+Lemma line_locations_of_pieces : forall ps,
+  pieces_ok ps -> line_locations (concat (map piece_bytes ps)) = locs_of 0 ps.
+Proof. intros ps H. apply line_locs_of_pieces. exact H. Qed.
+
+Lemma wpiece_ok : forall p, piece_ok p -> piece_ok (wpiece p).
+Proof.
+  intros [c t] [H1 [H2 [H3 H4]]]. cbn [fst snd] in *.
+  pose proof (whipe_line_blank c H1) as Hb.
+  unfold piece_ok, wpiece. cbn [fst snd]. split.
+  - intros Hin. apply In_nth_error in Hin. destruct Hin as [o Ho].
+    destruct (Forall2_nth_r _ _ _ _ _ _ _ Hb Ho) as [x [Hx Hxy]].
+    destruct Hxy as [E|[E _]]; [|discriminate E].
+    apply H1. rewrite E. exact (nth_error_In _ _ Hx).
+  - split; [exact H2|]. split.
+    + unfold piece_bytes in *. cbn [fst snd] in *. intros E.
+      apply H3. apply app_eq_nil in E. destruct E as [E1 E2].
+      assert (Hl : length c = 0%nat) by (rewrite <- (whipe_line_length c H1), E1; reflexivity).
+      destruct c; [|discriminate Hl]. rewrite E2. reflexivity.
+    + intros Ht c' E. rewrite E in Hb.
+      destruct (Forall2_blank_last_cr _ _ Hb) as [a' Ha]. exact (H4 Ht a' Ha).
+Qed.
+
+Lemma wpieces_ok : forall ps, pieces_ok ps -> pieces_ok (map wpiece ps).
+Proof.
+  induction ps as [|p r IH]; intros Hok; [exact I|].
+  cbn [pieces_ok] in Hok. destruct Hok as [Hp [Hterm Hr]].
+  cbn [map pieces_ok]. split; [exact (wpiece_ok _ Hp)|]. split; [|exact (IH Hr)].
+  intros Hne. apply Hterm. intros E. apply Hne. rewrite E. reflexivity.
+Qed.
+
+Lemma wpieces_locs : forall ps pos, pieces_ok ps -> locs_of pos (map wpiece ps) = locs_of pos ps.
+Proof.
+  induction ps as [|p r IH]; intros pos Hok; [reflexivity|].
+  cbn [pieces_ok] in Hok. destruct Hok as [[H1 _] [_ Hr]].
+  cbn [map locs_of]. unfold piece_bytes, wpiece, len. cbn [fst snd].
+  rewrite app_length, (whipe_line_length _ H1), <- app_length.
+  rewrite (IH _ Hr). reflexivity.
+Qed.
+
+(* The parser's line table (over the wiped text) is the line table of the original text. *)
+Theorem whipe_line_table : forall src, line_locations (whipe_comments src) = line_locations src.
+Proof.
+  intros src. destruct (line_locations_pieces src) as [_ [Hl Hok]].
+  rewrite whipe_as_pieces.
+  rewrite (line_locations_of_pieces _ (wpieces_ok _ Hok)).
+  rewrite (wpieces_locs _ _ Hok). symmetry. exact Hl.
+Qed.
+
+(* ------------------------------------------------------------------------------------------ *)
+(* A diagnostic for a byte of the wiped text is reported on the line that byte is on *)
 
 Lemma blank_rel_lf : forall a b, blank_rel a b -> (b =? LF) = (a =? LF).
 Proof.
@@ -179,140 +277,21 @@ Proof.
   - subst b. apply N.eqb_neq in H2. rewrite H2. reflexivity.
 Qed.
 
-Lemma split_blank : forall a b,
-  Forall2 blank_rel a b ->
-  Forall2 (Forall2 blank_rel) (split_inclusive a) (split_inclusive b).
+Lemma count_lf_blank : forall a b, Forall2 blank_rel a b -> count_lf b = count_lf a.
 Proof.
-  intros a b H. induction H as [|x y a b Hxy Hab IH]; [constructor|].
-  cbn [split_inclusive]. rewrite (blank_rel_lf _ _ Hxy).
-  destruct (x =? LF).
-  - constructor; [|exact IH]. constructor; [exact Hxy|constructor].
-  - destruct IH as [|s s' r r' Hs Hr].
-    + constructor; [|constructor]. constructor; [exact Hxy|constructor].
-    + constructor; [|exact Hr]. constructor; [exact Hxy|exact Hs].
+  intros a b H. unfold count_lf. induction H as [|x y a b Hxy Hab IH]; [reflexivity|].
+  cbn [filter]. rewrite (blank_rel_lf _ _ Hxy). destruct (x =? LF).
+  - rewrite !len_cons. rewrite IH. reflexivity.
+  - exact IH.
 Qed.
 
-Lemma strip_suffix_lf_blank : forall a b,
-  Forall2 blank_rel a b ->
-  match strip_suffix LF a, strip_suffix LF b with
-  | Some a', Some b' => Forall2 blank_rel a' b'
-  | None, None => True
-  | _, _ => False
-  end.
+Theorem position_full : forall src, position_stmt src.
 Proof.
-  intros a b H. induction H as [|x y a b Hxy Hab IH]; [exact I|].
-  destruct Hab as [|x2 y2 a2 b2 Hxy2 Hab2].
-  - cbn [strip_suffix]. rewrite (blank_rel_lf _ _ Hxy). destruct (x =? LF); [constructor|exact I].
-  - rewrite !strip_suffix_cons.
-    destruct (strip_suffix LF (x2 :: a2)) as [a'|]; destruct (strip_suffix LF (y2 :: b2)) as [b'|];
-      cbn [option_map]; try exact IH.
-    constructor; [exact Hxy|exact IH].
-Qed.
-
-Lemma strip_suffix_cr_none : forall l, ~ In CR l -> strip_suffix CR l = None.
-Proof.
-  intros l H. destruct (strip_suffix CR l) as [r|] eqn:E; [|reflexivity].
-  apply strip_suffix_some in E. exfalso. exact (not_in_app_last _ _ _ H E).
-Qed.
-
-Lemma blank_rel_no_cr : forall a b, Forall2 blank_rel a b -> ~ In CR a -> ~ In CR b.
-Proof.
-  intros a b H. induction H as [|x y a b Hxy Hab IH]; intros Ha Hin; [destruct Hin|].
-  destruct Hin as [Hin|Hin].
-  - destruct Hxy as [E|[E _]].
-    + apply Ha. left. congruence.
-    + subst y. discriminate Hin.
-  - apply IH; [|exact Hin]. intros H0. apply Ha. right. exact H0.
-Qed.
-
-Lemma line_content_length_blank : forall a b,
-  Forall2 blank_rel a b -> ~ In CR a ->
-  length (line_content a) = length (line_content b).
-Proof.
-  intros a b H Ha. pose proof (blank_rel_no_cr _ _ H Ha) as Hb.
-  pose proof (strip_suffix_lf_blank _ _ H) as Hs. unfold line_content.
-  destruct (strip_suffix LF a) as [a'|] eqn:Ea; destruct (strip_suffix LF b) as [b'|] eqn:Eb;
-    try (exfalso; exact Hs); cbn [unwrap_or].
-  - apply strip_suffix_some in Ea. apply strip_suffix_some in Eb.
-    assert (Ha' : ~ In CR a') by (intros Hin; apply Ha; rewrite Ea; apply in_or_app; left; exact Hin).
-    assert (Hb' : ~ In CR b') by (intros Hin; apply Hb; rewrite Eb; apply in_or_app; left; exact Hin).
-    rewrite (strip_suffix_cr_none _ Ha'), (strip_suffix_cr_none _ Hb'). cbn [unwrap_or].
-    exact (Forall2_same_length Hs).
-  - rewrite (strip_suffix_cr_none _ Ha), (strip_suffix_cr_none _ Hb). cbn [unwrap_or].
-    exact (Forall2_same_length H).
-Qed.
-
-Lemma line_locs_from_blank : forall segs segs' pos,
-  Forall2 (Forall2 blank_rel) segs segs' ->
-  (forall seg, In seg segs -> ~ In CR seg) ->
-  line_locs_from pos segs' = line_locs_from pos segs.
-Proof.
-  intros segs segs' pos H. revert pos. induction H as [|s s' r r' Hs Hr IH]; intros pos Hcr.
-  - reflexivity.
-  - cbn [line_locs_from].
-    assert (Hs0 : ~ In CR s) by (apply Hcr; left; reflexivity).
-    unfold len. rewrite <- (line_content_length_blank _ _ Hs Hs0).
-    rewrite <- (Forall2_same_length Hs). f_equal. apply IH.
-    intros seg Hin. apply Hcr. right. exact Hin.
-Qed.
-
-Lemma line_locations_blank : forall a b,
-  Forall2 blank_rel a b -> ~ In CR a -> line_locations b = line_locations a.
-Proof.
-  intros a b H Ha. unfold line_locations. apply line_locs_from_blank.
-  - apply split_blank. exact H.
-  - intros seg Hin Hcr. apply Ha. rewrite <- (split_concat a).
-    apply in_concat. exists seg. split; assumption.
-Qed.
-
-(* The parser's line table (over the wiped text) is the line table of the original text minus its
-   final "\n". *)
-Theorem whipe_line_table_lf : forall src,
-  ~ In CR src -> line_locations (whipe_comments src) = line_locations (chomp src).
-Proof.
-  intros src H. apply line_locations_blank; [apply whipe_preserves_offsets_lf; exact H|].
-  unfold chomp. destruct (strip_suffix LF src) as [r|] eqn:E; cbn [unwrap_or]; [|exact H].
-  apply strip_suffix_some in E. intros Hin. apply H. rewrite E. apply in_or_app. left. exact Hin.
-Qed.
-
-(* ------------------------------------------------------------------------------------------ *)
-(* With CRLF the offsets do move: each "\r\n" line loses one byte. *)
-
-Lemma find_comment_none_whipe : forall l, find_comment l = None -> whipe_line l = l.
-Proof. intros l H. unfold whipe_line. rewrite H. reflexivity. Qed.
-
-Lemma str_lines_nonempty : forall s, s <> [] -> str_lines s <> [].
-Proof.
-  intros s H E. unfold str_lines in E. apply map_eq_nil in E. apply split_nil_iff in E. exact (H E).
-Qed.
-
-Theorem whipe_crlf_line : forall a rest,
-  ~ In LF a -> find_comment a = None -> rest <> [] ->
-  whipe_comments (a ++ CR :: LF :: rest) = a ++ LF :: whipe_comments rest.
-Proof.
-  intros a rest Ha Hc Hr. unfold whipe_comments, str_lines.
-  replace (a ++ CR :: LF :: rest) with ((a ++ [CR]) ++ LF :: rest) by (rewrite <- app_assoc; reflexivity).
-  rewrite split_app_line.
-  2:{ intros Hin. apply in_app_or in Hin. destruct Hin as [Hin|[Hin|[]]]; [exact (Ha Hin)|discriminate Hin]. }
-  cbn [map].
-  assert (Hl : str_line ((a ++ [CR]) ++ [LF]) = a).
-  { unfold str_line. rewrite strip_suffix_app. rewrite strip_suffix_app. reflexivity. }
-  rewrite Hl. rewrite (find_comment_none_whipe _ Hc).
-  pose proof (str_lines_nonempty rest Hr) as Hne. unfold str_lines in Hne.
-  destruct (map str_line (split_inclusive rest)) as [|x r]; [exfalso; apply Hne; reflexivity|].
-  reflexivity.
-Qed.
-
-Theorem whipe_lf_line : forall a rest,
-  ~ In LF a -> ~ In CR a -> find_comment a = None -> rest <> [] ->
-  whipe_comments (a ++ LF :: rest) = a ++ LF :: whipe_comments rest.
-Proof.
-  intros a rest Ha Hcr Hc Hr. unfold whipe_comments, str_lines.
-  rewrite split_app_line by exact Ha. cbn [map].
-  assert (Hl : str_line (a ++ [LF]) = a).
-  { unfold str_line. rewrite strip_suffix_app. rewrite (strip_suffix_cr_none _ Hcr). reflexivity. }
-  rewrite Hl. rewrite (find_comment_none_whipe _ Hc).
-  pose proof (str_lines_nonempty rest Hr) as Hne. unfold str_lines in Hne.
-  destruct (map str_line (split_inclusive rest)) as [|x r]; [exfalso; apply Hne; reflexivity|].
-  reflexivity.
+  intros src o Ho.
+  pose proof (whipe_preserves_offsets src) as H.
+  assert (Hlen : len (whipe_comments src) = len src) by (unfold len; rewrite whipe_length; reflexivity).
+  rewrite Hlen in Ho.
+  rewrite (position_of_byte src o Ho).
+  unfold line_number_of. f_equal.
+  symmetry. apply count_lf_blank. apply Forall2_firstn. exact H.
 Qed.
